@@ -1,6 +1,9 @@
 //! This module contains tools for working with 3D voxel grids.
 
+#[cfg(not(feature = "verif"))]
 use std::collections::HashSet;
+#[cfg(feature = "verif")]
+use crate::verif::HashSet;
 
 /// This function takes a set of coordinates in a 3D grid and returns a list of clusters of
 /// connected voxel coordinates.
